@@ -224,7 +224,8 @@ def _call_sites(ctx):
             it_src = ast.unparse(g.iter)
             recv = ast.unparse(call.func.value)
             recv_is_device = isinstance(g.target, ast.Name) and recv == g.target.id and "devices" in it_src
-            arg_is_obj = len(call.args) == 1 and ast.unparse(call.args[0]) == "obj"
+            # the argument is the object of the enclosing loop: a plain name other than the comprehension's own variable
+            arg_is_obj = len(call.args) == 1 and isinstance(call.args[0], ast.Name) and isinstance(g.target, ast.Name) and call.args[0].id != g.target.id
         applies = any(isinstance(c.func, ast.Attribute) and c.func.attr == "apply" for c in find_nodes(ifnode, ast.Call) if c is not call)
         want_neg = fn_name == "place_objects"
         ctx.ob(
